@@ -43,6 +43,25 @@ theorem caller_mutation_does_not_reach_instances (h : Heap.H) (hs : Heap.Sep h) 
     simp [this]
   · rfl
 
+/-- C11 for whole programs ("class-level defaults", "the caller's dicts"): a class-level default dict, or a dict
+    the caller built and passed to any number of constructors / `update()` calls, holds the same content after **any**
+    program over any number of instances — construction, updates, clones, component instantiation — as long as
+    the caller itself does not write to it -/
+theorem defaults_and_caller_dicts_never_change (ops : List Heap.Op) (h : Heap.H) (hs : Heap.Sep h) (a : Nat)
+    (ha : a < h.next) (hown : h.owner a = .cls ∨ h.owner a = .caller)
+    (hnw : ∀ op ∈ ops, ∀ k v, op ≠ .callerWrite a k v) :
+    (Heap.run true h ops).cells a = h.cells a :=
+  Heap.unowned_cells_never_change ops h hs a ha
+    (fun i he => by rcases hown with ho | ho <;> rw [ho] at he <;> cases he) hnw
+
+/-- the premises are satisfiable, and the legacy setter breaks the conclusion on the same program:
+    a class default dict used by two instances, one of them updated -/
+example : let pre : List Heap.Op := [.clsNew [(1, 5)], .callerNew [(2, 7)]]
+    let ops : List Heap.Op := [.construct 0 0 (some 0), .construct 1 0 (some 0), .update 0 0 1, .copy 0 2 [0]]
+    (Heap.run true Heap.H.empty pre).owner 0 = .cls ∧
+    (Heap.run true (Heap.run true Heap.H.empty pre) ops).cells 0 = some [(1, 5)] ∧
+    (Heap.run false (Heap.run false Heap.H.empty pre) ops).cells 0 = some [(1, 5), (2, 7)] := by decide
+
 /-- the legacy setter (store the caller's dict by reference, merge in place) violates all of this:
     two instances built from one dict share it, and updating one changes the other and the caller's
     dict (the pre-repair behaviour, kept as regression documentation) -/
